@@ -33,7 +33,13 @@ type factKey struct {
 	start, end int64
 }
 
+type probe struct {
+	h    int64
+	node int
+}
+
 type runner struct {
+	probes []probe // (height, node) lookups repeated, identically, after every mutating operation
 	pool   *isaacdatabase.TempPool
 	seed   uint64
 	netID  base.NetworkID
@@ -200,6 +206,16 @@ func (r *runner) lookup(h int64, node int) {
 	r.res.Count("", false)
 }
 
+// reprobe repeats the very same lookups (and the traversal at their heights) on the same pool object: an answer
+// given before a mutation must not survive it (stale caches), and lookup and traversal must agree
+func (r *runner) reprobe() {
+	for _, p := range r.probes {
+		r.lookup(p.h, p.node)
+		r.lookup(p.h, p.node)
+		r.traverse(p.h, 0, "traverse-not-exact")
+	}
+}
+
 // survivors: the union of complete traversals over every height of the generated range
 func (r *runner) sweep(lo, hi int64, class string) {
 	for h := lo; h <= hi; h++ {
@@ -257,6 +273,9 @@ func generated(rd *vh.Rand, seed uint64, res *vh.Result, cases *vh.Cases, full b
 			keys = append(keys, k)
 			r.set(k, rd.Intn(4))
 			res.Dist("op_set")
+			if len(r.probes) < 4 && k.start <= k.end && rd.Chance(1, 2) { // a lookup that is answered positively now
+				r.probes = append(r.probes, probe{h: k.start + int64(rd.Intn(int(k.end-k.start)+1)), node: k.node})
+			}
 		case c < 16:
 			m := rd.Range(1, 3)
 			var ks []factKey
@@ -281,6 +300,7 @@ func generated(rd *vh.Rand, seed uint64, res *vh.Result, cases *vh.Cases, full b
 				nontrivial = true
 			}
 		}
+		r.reprobe()
 		if rd.Chance(1, 8) { // checkpoint
 			h := int64(rd.Range(minH, maxH))
 			r.traverse(h, 0, "traverse-not-exact")
@@ -368,6 +388,25 @@ func corpus(seed uint64, res *vh.Result, cases *vh.Cases) {
 	r.sweep(minH-1, 12, "remove-by-height-not-exact")
 	res.Count("corpus-remove", true)
 	r.finish(cases, "corpus: remove-by-height boundary")
+
+	// one pool object: positive lookup, remove by height with nothing else in between, the same lookup again
+	r = newRunner(seed, res)
+	r.set(factKey{0, 3, 7}, 0)
+	r.set(factKey{1, 3, 9}, 1)
+	r.probes = []probe{{5, 0}, {5, 1}, {7, 0}}
+	r.reprobe()
+	r.remHeight(7)
+	r.reprobe()
+	r.remHeight(7)
+	r.reprobe()
+	r.remHeight(9)
+	r.reprobe()
+	r.set(factKey{0, 3, 7}, 2)
+	r.reprobe()
+	r.remFact([]factKey{{0, 3, 7}})
+	r.reprobe()
+	res.Count("corpus-repeat-lookup", true)
+	r.finish(cases, "corpus: same lookup before and after remove-by-height on one pool")
 
 	// same fact stored twice (re-signed): the later operation is the one stored; removal by fact
 	r = newRunner(seed, res)
